@@ -13,7 +13,7 @@ import (
 func init() {
 	Register(&Rule{
 		Name:  "R-SUCCESS-GATE",
-		Props: []string{"C02", "C01"},
+		Props: []string{"C02", "C01", "C03"},
 		Min:   10,
 		Doc: "(a) receiver: every variable compared with the file total in a condition that guards `return m, nil` of RecvManifestMultiStream is incremented only on paths where the per-file outcome parameter is true; " +
 			"(b) sender: `return nil` of SendManifestMultiStream passes transferErr == nil and acknowledged >= totalFiles, and the acknowledged counter is incremented only past fileDone.OK; " +
@@ -40,7 +40,7 @@ func init() {
 	})
 	Register(&Rule{
 		Name:  "R-SANITIZER",
-		Props: []string{"C07", "C03"},
+		Props: []string{"C07", "C03", "C18"},
 		Min:   6,
 		Doc: "validateRelPath rejects absolute paths (filepath.IsAbs / !IsLocal leading to the error), parent references by a per-segment test (segment == \"..\" over a split on separators, or !IsLocal) - a substring test for \"..\" is refused because it rejects legal names - " +
 			"the empty path, and paths longer than maxRelPathLength; the stream-side reader bounds the path length by the same constant; validateFilename rejects separators, \".\" and \"..\" and the empty name",
@@ -70,6 +70,7 @@ func runSuccessGate(c *Ctx) {
 		cfg := recv.CFG()
 		// success returns: `return m, nil`
 		counters := map[types.Object]bool{}
+		needsFiles := map[*ast.ReturnStmt]string{}
 		nret := 0
 		for _, b := range cfg.Blocks {
 			ret, ok := IsReturnExit(b)
@@ -90,10 +91,26 @@ func runSuccessGate(c *Ctx) {
 					if !edge.succ {
 						continue
 					}
-					for _, a := range Implied(cond, edge.val) {
+					for _, a := range Implied(ExpandPred(p, recv, cond, 3), edge.val) {
 						if be, ok := a.E.(*ast.BinaryExpr); ok {
 							switch be.Op {
 							case token.GEQ, token.LSS, token.EQL, token.NEQ, token.GTR, token.LEQ:
+								// `total > 0` as a condition of success: an empty or directory-only tree could never complete
+								if a.Val && (be.Op == token.GTR || be.Op == token.NEQ) {
+									if z, isC := constInt(info, be.Y); isC && z == 0 {
+										isLen := false
+										for _, d := range resolveExprs(recv, be.X, 1) {
+											if call, ok := ast.Unparen(d).(*ast.CallExpr); ok {
+												if id, ok := ast.Unparen(call.Fun).(*ast.Ident); ok && id.Name == "len" {
+													isLen = true
+												}
+											}
+										}
+										if isLen {
+											needsFiles[ret] = types.ExprString(be)
+										}
+									}
+								}
 								if o, ok := ObjOf(info, be.X).(*types.Var); ok && !o.IsField() && isIntType(o.Type()) {
 									// the other side must be the file total: a variable defined as len(<collection>)
 									isTotal := false
@@ -119,6 +136,17 @@ func runSuccessGate(c *Ctx) {
 		}
 		// every success return is reachable only with counter >= total established
 		complete := &PassSpec{Vias: []Via{{Cond: func(g *FuncInfo, e ast.Expr) (string, bool, bool) {
+			if _, isCall := ast.Unparen(e).(*ast.CallExpr); isCall {
+				// a predicate helper: true implies every conjunct of its (inlined) body
+				for _, a := range Implied(ExpandPred(p, g, e, 3), true) {
+					if b2, ok := a.E.(*ast.BinaryExpr); ok && a.Val && (b2.Op == token.GEQ || b2.Op == token.EQL) {
+						if o, _ := ObjOf(g.Info(), b2.X).(*types.Var); o != nil && counters[o] {
+							return "all-complete", true, true
+						}
+					}
+				}
+				return "", false, false
+			}
 			be, ok := ast.Unparen(e).(*ast.BinaryExpr)
 			if !ok {
 				return "", false, false
@@ -153,6 +181,8 @@ func runSuccessGate(c *Ctx) {
 				continue
 			}
 			kret++
+			c.Check(needsFiles[ret] == "", fmt.Sprintf("receiver/return-nil#%d/empty-tree-ok", kret), ret.Pos(), "success does not require a non-empty file list",
+				"this success return additionally requires "+needsFiles[ret]+": for an empty manifest or a directory-only tree the receiver can never report success although the sender does")
 			c.Check(complete.Passed(recv, NodeRef{b, len(b.Nodes) - 1}, "all-complete"), fmt.Sprintf("receiver/return-nil#%d/all-complete", kret), ret.Pos(),
 				"success is returned only with the completed-file counter at the file total", "RecvManifestMultiStream returns success on a path where the completed-file counter was not compared with the file total: an End record, a graceful close or a drained channel alone reports success for an incomplete tree")
 		}
@@ -333,17 +363,13 @@ func runSuccessGate(c *Ctx) {
 				okShape := false
 				if be, ok := ast.Unparen(e).(*ast.BinaryExpr); ok && be.Op == token.LAND {
 					// other conjunct: a comparison >= / a call to allFilesCompleted
-					for _, a := range Implied(e, true) {
+					// predicate helpers are inlined: the other conjunct must contain a `counter >= total` comparison
+					for _, a := range Implied(ExpandPred(p, f, e, 3), true) {
 						if a.E == ast.Expr(call) {
 							continue
 						}
 						if b2, ok := a.E.(*ast.BinaryExpr); ok && (b2.Op == token.GEQ || b2.Op == token.EQL) && a.Val {
 							okShape = true
-						}
-						if c3, ok := a.E.(*ast.CallExpr); ok && a.Val {
-							if g := p.CalleeInfo(fi, c3); g != nil && strings.Contains(strings.ToLower(g.Name), "completed") {
-								okShape = true
-							}
 						}
 					}
 				}
